@@ -449,6 +449,32 @@ class C10:
                     if not self.image_check(rec, case, list(trace) + [["launch", "after-scope"]], kw["env"], model, "after-scoped-launch"):
                         return
         env["UPDATE_OS_ENVIRON"] = False
+        # ---- the optional mirror into os.environ, probed at the end of every history: assignments, scopes and deletions
+        # must show in os.environ while $UPDATE_OS_ENVIRON is on, and a scope must put the outer value back there too
+        try:
+            k, g, sc = rng.choice([("VSTR", "g%d" % rng.randint(0, 9), "scoped"), ("VNUMSTR", "5", "6"), ("VFOOPATH", ["/g", "/h"], ["/scoped"])])
+            show = lambda v: os.pathsep.join(v) if isinstance(v, list) else v
+            env["UPDATE_OS_ENVIRON"] = True
+            env[k] = g
+            probe = [os.environ.get(k)]
+            with env.swap(**{k: sc}):
+                probe.append(os.environ.get(k))
+            probe.append(os.environ.get(k))
+            kw = {}
+            with env.swap(overlay={k: sc}):
+                SubprocSpec.build(["env"]).prep_env_subproc(kw)
+            probe.append(os.environ.get(k))
+            del env[k]
+            probe.append(os.environ.get(k))
+            want = [show(g), show(sc), show(g), show(g), None]
+            rec.count("os_environ_mirror_probes")
+            if probe != want:
+                which = ["assignment-not-mirrored", "scoped-value-not-mirrored", "scoped-value-left-behind-after-the-scope", "overlay-launch-changed-os-environ", "deletion-not-mirrored"][[a == b for a, b in zip(probe, want)].index(False)]
+                rec.violation("OS-ENVIRON-MIRROR/" + which, dict(case, steps=list(trace) + [["mirror-probe", k]]), {"key": k, "os_environ_seen": probe, "expected": want})
+        finally:
+            env["UPDATE_OS_ENVIRON"] = False
+            if k in model:
+                env[k] = model[k]
         rec.case(nontrivial=case["rseed"] if mutated_then_launched else None)
 
     def run_case(self, case, rec):
